@@ -14,11 +14,13 @@ import (
 
 // ReqLog is one request seen by the scripted server.
 type ReqLog struct {
-	N     int    // global index
-	URL   string // path?query (host stripped when it is the stream host)
-	Host  string
-	Range string
-	At    time.Duration
+	N    int    // global index
+	URL  string // path?query (host stripped when it is the stream host)
+	Host string
+	// Scheme of the request URL ("http"); a request without scheme would fail on a real transport
+	Scheme string
+	Range  string
+	At     time.Duration
 }
 
 // Fault is an injected fault.
@@ -36,6 +38,7 @@ type Server struct {
 	playlists map[string][]string // path -> successive snapshots (last one repeats)
 	plCount   map[string]int
 	faults    map[int]string
+	urlFaults []*urlFault
 	// OnRequest is called (outside the lock) with the index of each request before it is
 	// answered; it may block (used to inject Close at a request).
 	OnRequest func(n int, path string)
@@ -61,6 +64,38 @@ func (s *Server) AddPlaylist(path string, snapshots ...string) { s.playlists[pat
 
 // AddFault injects a fault at request index n.
 func (s *Server) AddFault(f Fault) { s.faults[f.AtReq] = f.Kind }
+
+type urlFault struct {
+	substr string
+	nth    int // which matching request (0 = first)
+	kind   string
+	seen   int
+	hit    bool
+	after  string // the faulty answer is held back until a request containing this was seen (+50 ms)
+}
+
+// AddURLFaultAfter is AddURLFault whose answer is held back until a request whose URL contains
+// after has been seen (at most 2 s), so that another stream gets ahead first.
+func (s *Server) AddURLFaultAfter(substr string, nth int, kind string, after string) {
+	s.urlFaults = append(s.urlFaults, &urlFault{substr: substr, nth: nth, kind: kind, after: after})
+}
+
+// AddURLFault injects a fault into the nth request whose URL contains substr.
+func (s *Server) AddURLFault(substr string, nth int, kind string) {
+	s.urlFaults = append(s.urlFaults, &urlFault{substr: substr, nth: nth, kind: kind})
+}
+
+// URLFaultsHit tells whether every URL fault was delivered.
+func (s *Server) URLFaultsHit() bool {
+	s.mu.Lock()
+	defer s.mu.Unlock()
+	for _, f := range s.urlFaults {
+		if !f.hit {
+			return false
+		}
+	}
+	return len(s.urlFaults) > 0
+}
 
 // Requests returns a copy of the log.
 func (s *Server) Requests() []ReqLog {
@@ -92,9 +127,38 @@ func (s *Server) RoundTrip(req *http.Request) (*http.Response, error) {
 	}
 	s.mu.Lock()
 	n := len(s.Log)
-	s.Log = append(s.Log, ReqLog{N: n, URL: full, Host: req.URL.Host, Range: req.Header.Get("Range"), At: time.Since(s.start)})
+	s.Log = append(s.Log, ReqLog{N: n, URL: full, Host: req.URL.Host, Scheme: req.URL.Scheme, Range: req.Header.Get("Range"), At: time.Since(s.start)})
 	fault := s.faults[n]
+	holdFor := ""
+	for _, f := range s.urlFaults {
+		if strings.Contains(full, f.substr) {
+			if f.seen == f.nth && fault == "" {
+				fault = f.kind
+				f.hit = true
+				holdFor = f.after
+			}
+			f.seen++
+		}
+	}
 	s.mu.Unlock()
+	if holdFor != "" {
+		deadline := time.Now().Add(2 * time.Second)
+		for time.Now().Before(deadline) && req.Context().Err() == nil {
+			seen := false
+			s.mu.Lock()
+			for _, l := range s.Log {
+				if strings.Contains(l.URL, holdFor) {
+					seen = true
+				}
+			}
+			s.mu.Unlock()
+			if seen {
+				time.Sleep(50 * time.Millisecond)
+				break
+			}
+			time.Sleep(5 * time.Millisecond)
+		}
+	}
 	if s.OnRequest != nil {
 		s.OnRequest(n, full)
 	}
